@@ -65,6 +65,11 @@ func plans(prop, tier string) []drv.Plan {
 				add(s.P, s.W, s.N, mode, "normal", "fatal", b)
 			}
 		}
+		for _, s := range []shape{{1, 1, 1}, {1, 2, 2}} {
+			for _, mode := range []string{"waiter", "poller"} {
+				add(s.P, s.W, s.N, mode, "normal", "fatal2", b)
+			}
+		}
 	case "C12":
 		b := 3
 		if !q {
